@@ -93,7 +93,10 @@ RtCases ==
                     Member("method", "M1", "none", Struct(<<Fld("f", t), Fld("type", Plain("int"))>>), Struct(<<Fld("g", t), Fld("h", Plain("bool"))>>)),
                     Member("method", "M2", "none", Struct(<<Fld("a", Ref("T2"))>>), Struct(<<Fld("b", Arr(Ref("T2")))>>)),
                     Member("method", "Nop", "none", Struct(<<>>), Struct(<<>>)),
-                    Member("error", "E1", "none", Struct(<<Fld("e", IF HasAnon(t) THEN Plain("int") ELSE t), Fld("enum", Plain("string"))>>), NoType),
+                    \* every input optional (the all-unset call still carries "parameters"), mixed-case and digit field names
+                    Member("method", "GetIO", "none", Struct(<<Fld("ifIndex", Opt(Plain("int"))), Fld("with_Stats2", IF t.c = "opt" THEN t ELSE Opt(t))>>),
+                                                       Struct(<<Fld("rxBytes", Opt(Plain("int"))), Fld("X", Plain("bool"))>>)),
+                    Member("error", "E1", "none", Struct(<<Fld("e", IF HasAnon(t) THEN Plain("int") ELSE t), Fld("enum", Plain("string")), Fld("errNo", Opt(Plain("int")))>>), NoType),
                     Member("error", "E0", "none", Struct(<<>>), NoType) >>)
      : t \in RtPool}
 
